@@ -6,7 +6,7 @@ namespace KV.ReaderClose
 
 structure Inv (s : State) : Prop where
   done : s.close = 3 → s.fetchers = 0 ∧ s.loop = 0 ∧ s.conns = 0 ∧ s.msgsClosed = true
-  loop0 : s.loop = 0 → s.member = none ∧ s.gen = false ∧ s.lconns = 0
+  loop0 : s.loop = 0 → (s.member = none ∨ s.leaveFail = true) ∧ s.gen = false ∧ s.lconns = 0
   marked : 2 ≤ s.close → s.closed = true
   msgs : s.msgsClosed = true → s.fetchers = 0 ∧ s.loop = 0 ∧ s.closed = true
   plain : s.group = false → s.loop = 0
